@@ -558,6 +558,19 @@ int MASA::masa_uninit<Scalar>::init_var()
 
 }
 
+#ifdef MASA_VERIF
+// verification hook: storage and C accessor for the live-object counters
+namespace MASA { namespace verif {
+  template <> long& live_count<double>()      { static long n = 0; return n; }
+  template <> long& live_count<long double>() { static long n = 0; return n; }
+}}
+extern "C" long masa_verif_live(int precision)
+{
+  return precision == 0 ? MASA::verif::live_count<double>()
+                        : MASA::verif::live_count<long double>();
+}
+#endif // MASA_VERIF
+
 // ----------------------------------------
 //   Template Instantiation(s)
 // ----------------------------------------
